@@ -30,6 +30,7 @@ pub const H_BE: u8 = 7;
 pub const H_QF: u8 = 8;
 pub const H_QE: u8 = 9;
 pub const H_QL: u8 = 10;
+pub const H_QS: u8 = 11;
 
 pub fn framing_tree() -> TreeSpec {
     TreeSpec::root(vec![
@@ -42,6 +43,7 @@ pub fn framing_tree() -> TreeSpec {
         TreeSpec::leaf("QFLoat", H_QF),
         TreeSpec::leaf("QERR", H_QE),
         TreeSpec::leaf("QLONg", H_QL),
+        TreeSpec::leaf("QSEMi", H_QS),
         TreeSpec::branch("BR", vec![TreeSpec::dleaf("BQ", H_BQ), TreeSpec::leaf("BE", H_BE)]),
         TreeSpec::leaf("*CQ", H_Q1),
     ])
@@ -58,6 +60,7 @@ pub fn framing_plans(dev: &mut RigDev) {
     dev.plan[H_BE as usize] = Plan::pull(0, 0);
     dev.plan[H_QF as usize] = Plan::resp(&[Item::F64(-2.5e-3), Item::Expr(b"1,2:3"), Item::Utf8("h\u{e9}")]);
     dev.plan[H_QE as usize] = Plan::resp(Box::leak(Box::new([Item::Err(Error::custom(-113, b"Undefined header")), Item::U8(0)])));
+    dev.plan[H_QS as usize] = Plan::resp(&[Item::Block(b"ab;")]);
     dev.plan[H_QL as usize] = Plan::resp(&[Item::I64(i64::MIN), Item::Str(b"\"\""), Item::Block(b"0123456789"), Item::F32(f32::NAN), Item::F64(f64::NEG_INFINITY)]);
 }
 
@@ -79,6 +82,7 @@ pub fn kinds(all: bool) -> Vec<Kind> {
             Kind { text: ":BR?", resp: Some("ABC,0"), needs_br: false, writes_nothing: false },
             Kind { text: ":QFL?", resp: Some("-0.0025,(1,2:3),#13h\u{e9}"), needs_br: false, writes_nothing: false },
             Kind { text: ":QERR?", resp: Some("-113,\"Undefined header\",0"), needs_br: false, writes_nothing: false },
+            Kind { text: ":QSEM?", resp: Some("#13ab;"), needs_br: false, writes_nothing: false },
             Kind { text: ":QLON?", resp: Some("-9223372036854775808,\"\"\"\"\"\",#2100123456789,9.91E+37,-9.9E+37"), needs_br: false, writes_nothing: false },
         ]);
     }
